@@ -238,6 +238,9 @@ def run(ctx: RuleContext, p: Program) -> None:
     from . import nodesem
     ctx.try_rule(nodesem.rule_node_sem, p, 'NODE-SEM', 3 if ctx.tier == 'quick' else 4)
     ctx.try_rule(nodesem.rule_unord_sem, p, 'UNORD-SEM')
+    from . import c10 as _c10
+    # removing through a filtered view (del / pop / remove / discard / clear, by position or by value) removes exactly the items asked for
+    ctx.try_rule(_c10.rule_view_sem, p, 'VIEW-SEM', 3 if ctx.tier == 'quick' else 4)
     ctx.not_decided += ['full separator arithmetic for every (index, arity, position)', 'store block boundaries (C07)',
                         'identity of tokens outside the edit window (runtime)']
     ctx.assumptions += ['TokenStore.insert_after/insert_before/remove/splice semantics (C07)']
